@@ -111,6 +111,8 @@ def generate(run_seed, prop, tier="quick"):
         op = {"op": kind, "m": rng.randrange(len(sources))}
         if kind == "translate_forward":
             op["t"] = [rng.choice([0.0, 1.0, -3.5, 10.0, 123.25]) for _ in range(3)]
+            if rng.random() < 0.3:
+                op["to_origin"] = rng.randrange(10 ** 6)      # "shift by minus the position of atom k"
         if kind == "reseed":
             op["seed"] = rng.randrange(1, 2 ** 30)
         if kind == "foreign_rng":
@@ -119,7 +121,8 @@ def generate(run_seed, prop, tier="quick"):
             op.update({"permute": rng.choice(["reverse", "shuffle", "shuffle"]), "relabel": rng.choice(["none", "none", "shuffle", "offset"]),
                        "perm_seed": rng.randrange(2 ** 30)})
         if kind == "reweight":
-            op.update({"seed": rng.randrange(2 ** 30), "fraction": rng.choice([0.1, 0.3, 0.6])})
+            op.update({"seed": rng.randrange(2 ** 30), "fraction": rng.choice([0.1, 0.3, 0.6]),
+                       "scale": rng.choice([1.0, 1.0, 1e-10, 1e8])})
         if kind == "preset_positions":
             op["how"] = rng.choice(["shared_zeros", "int_zeros", "own_zeros"])
         if kind == "map_copy":
@@ -501,6 +504,9 @@ def run_history(scenario):
                     coords.forward_map_molecule(cg, aa)
                     before = {b: np.array(cg.nodes[b]["position"], dtype=float) for b in cg.nodes if "position" in cg.nodes[b]}
                     shift = np.array(op["t"], dtype=float)
+                    if op.get("to_origin") is not None:
+                        nodes = list(aa.nodes)
+                        shift = -np.asarray(aa.nodes[nodes[op["to_origin"] % len(nodes)]]["position"], dtype=float)
                     for node in aa.nodes:
                         aa.nodes[node]["position"] = np.asarray(aa.nodes[node]["position"], dtype=float) + shift
                     coords.forward_map_molecule(cg, aa)
@@ -553,9 +559,19 @@ def run_history(scenario):
                 # a user re-weights individual atoms of individual beads after resolution
                 import random
                 rng = random.Random(op["seed"])
+                scale = float(op.get("scale", 1.0))
+                if scale != 1.0:
+                    # the same weights in other units: only their ratios matter for a weight-normalised average
+                    for node in list(aa.nodes):
+                        weight = float(aa.nodes[node].get("weight", 1) or 0) * scale
+                        aa.nodes[node]["weight"] = weight
+                        for bead in aa.nodes[node].get("fragid", []):
+                            sub = cg.nodes[bead].get("graph") if bead in cg.nodes else None
+                            if sub is not None and node in sub.nodes:
+                                sub.nodes[node]["weight"] = weight
                 for node in list(aa.nodes):
                     if rng.random() < op["fraction"]:
-                        weight = rng.choice([0.5, 2.0, 0.25, 4.0, 1.5])
+                        weight = rng.choice([0.5, 2.0, 0.25, 4.0, 1.5]) * scale
                         aa.nodes[node]["weight"] = weight
                         for bead in aa.nodes[node].get("fragid", []):
                             sub = cg.nodes[bead].get("graph") if bead in cg.nodes else None
